@@ -161,7 +161,11 @@ func coderSchedules(r *Run) {
 		g = []int{2, 3, 4, 8, 16, 64}[t.Draw(6, "long-g")]
 	}
 	if t.Bool(1, 10, "many-goroutines") {
-		g = []int{16, 31, 64, 200}[t.Draw(4, "g-many")]
+		g = []int{16, 31, 64, 200, 65535, 65536, 65537, 1 << 20, 1 << 31}[t.Draw(9, "g-many")]
+		if g > 200 && units > 256 {
+			// (a worker per 16-byte unit: keep the number of driven workers moderate)
+			g = 200
+		}
 	}
 	if g > units {
 		r.Probe("workers>units")
@@ -336,9 +340,9 @@ func par2GoroutineInvariance(r *Run) {
 		r.Probe("file>=2MiB")
 	}
 	// bound the work per run (every kernel call passes a yield point):
-	// at most ~1.5 million (slice, recovery block) pairs
-	if w.N*w.R > 1500000 {
-		w.R = 1500000 / w.N
+	// at most ~0.6 million (slice, recovery block) pairs
+	if w.N*w.R > 600000 {
+		w.R = 600000 / w.N
 		if w.R < 1 {
 			w.R = 1
 		}
@@ -352,7 +356,7 @@ func par2GoroutineInvariance(r *Run) {
 	}
 	w.RecordCreated(r, ref)
 	want := w.Created
-	gs := []int{2, 3, 4, 7, 16, 64, 0}
+	gs := []int{2, 3, 4, 7, 16, 64, 0, 65536, 100000}
 	n := 1 + t.Draw(2, "variants")
 	for i := 0; i < n; i++ {
 		w2 := *w
